@@ -359,6 +359,10 @@ def run_faults(ctx: C.Ctx) -> None:
 
 def replay(ctx: C.Ctx, doc: Dict[str, Any], from_corpus: bool = False) -> None:
     inp = doc.get("input", {})
+    if "op" in inp:
+        from harness.props import c13_model as M
+        M.replay_op(ctx, inp)
+        return
     if "pdf" not in inp:
         return
     ents = [inp["entry"]] if inp.get("entry") in ENTRIES else list(ENTRIES)
@@ -384,6 +388,10 @@ def run_corpus(ctx: C.Ctx) -> None:
         with open(path) as fp:
             doc = json.load(fp)
         inp = doc.get("input", {})
+        if "op" in inp:
+            from harness.props import c13_model as M
+            M.replay_op(ctx, inp)
+            continue
         if "pdf" not in inp:
             continue
         name = "corpus:" + os.path.basename(path)
